@@ -22,7 +22,7 @@ SPEC_FUNCS = {"implies", "iff", "old", "forall", "exists", "isdict", "islist", "
               "istuple", "iscallable", "seq_eq_upto", "strlen", "lower_ascii", "keys_subset", "real",
               "list_eq", "is_exc", "no_new_keys", "trunc", "AP", "RP", "EPT", "INSTANT", "NOW", "RFC3339_OK", "rmax", "rmin",
               "istrue", "NAIVE", "unchanged_except", "isemptydict", "isfalse",
-              "prefix_unchanged", "isbytes"}
+              "prefix_unchanged", "isbytes", "isreversed", "same_contents"}
 
 BUILTIN_FUNCS = {
     "len", "isinstance", "int", "str", "float", "bool", "min", "max", "abs", "dict", "list", "tuple", "set",
@@ -728,6 +728,11 @@ def list_method(ex, st, ctx, l, name, args, kwargs, node):
         i0 = as_int(args[0])
         i = z3.If(i0 < 0, z3.If(i0 + n < 0, 0, i0 + n), z3.If(i0 > n, n, i0))
         st.heap = st.heap.lset(r, z3.Concat(z3.SubSeq(seq, 0, i), z3.Unit(args[1]), z3.SubSeq(seq, i, n - i)))
+        return VNone
+    if name == "reverse" and not args:
+        from .vals import u_rev, rev_facts
+        ex.assumptions.append(rev_facts(seq))
+        st.heap = st.heap.lset(r, u_rev(seq))
         return VNone
     ex.unsupported(st, ctx, "list." + name, node)
     return VNone
